@@ -165,7 +165,9 @@ def evaluate(cfg):
 
 
 def fixed_cases(tier):
-    return []
+    from .common import back_to_back_cases
+
+    return back_to_back_cases()
 
 
 simplifications = cfg_simplifications
